@@ -15,6 +15,7 @@ META = {
 }
 
 TOL = 1e-9
+CAP = 8
 
 
 OPT_DEFAULTS = {"respect_switches": True, "multi": True, "include_out_of_service": False, "nogobuses": None,
@@ -354,6 +355,17 @@ def run_case(case):
             raise RuntimeError("create_nxgraph / graph searches changed the net tables")
     sigs.discard(None)
     out["sig"] = sorted(sigs)
+    # per net keep at most CAP violations of one (clause, explanation) class - every class stays visible, the rest is counted
+    kept, seen = [], {}
+    for v in out["violations"]:
+        key = (v["clause"], tuple(t for t in v["tokens"] if t.startswith("explained=") or t.startswith("exc=")))
+        seen[key] = seen.get(key, 0) + 1
+        if seen[key] <= CAP:
+            kept.append(v)
+    if len(kept) < len(out["violations"]):
+        out["counts"]["violations_beyond_cap_per_net_and_class"] = len(out["violations"]) - len(kept)
+    out["counts"]["violating_evaluations"] = len(out["violations"])
+    out["violations"] = kept
     return out
 
 
